@@ -299,44 +299,59 @@ def PublicCfg(cfg):
                                        'raiseAt')} for g in cfg['iters']]}
 
 
+def RunSubset(task):
+  """One requested subset of one program: {'case', 'sub', 'singles'} ->
+  trace line ('_' holds bookkeeping that is not sent to TLC)."""
+  case, sub = task['case'], task['sub']
+  singles = task.get('singles') or {}
+  t0 = time.time()
+  r = ExecuteRecorded(case['text'], sub, case.get('pre_sql', ()))
+  ident = '%s/%s' % (case['id'], '+'.join(sub))
+  meta = {'case': case['id'], 'subset': sub, 'stmts': [], 'problems': [],
+          'origin': case['origin'], 'text': case['text'],
+          'pre_sql': list(case.get('pre_sql', ())), 'results': {}}
+  if r['cfg'] is None:
+    return {'id': ident, 'cfg': {'n': 0, 'req': [], 'iters': []}, 'ev': [],
+            'end': r['end'], 'res': [], '_': meta}
+  res = []
+  if len(sub) > 1 and r['end'] == 'ok':
+    for p in sub:
+      if singles.get(p) is not None:
+        res.append({'p': p, 'multi': r['results'][p], 'single': singles[p]})
+      else:
+        r['problems'].append('no single result for %s' % p)
+  meta.update(stmts=['%s:%s' % s['key'] for s in r['stmts']],
+              problems=r['problems'], rename=r.get('rename', 0),
+              calls=r['calls'], wall=round(time.time() - t0, 3),
+              results=r['results'] if len(sub) == 1 and r['end'] == 'ok'
+              else {})
+  return {'id': ident, 'cfg': PublicCfg(r['cfg']), 'ev': r['ev'],
+          'end': r['end'], 'res': res, '_': meta}
+
+
 def RunProgramCase(case):
-  """All requested subsets of one program.  Returns list of trace lines plus
-  bookkeeping (not sent to TLC) under key '_'."""
+  """All requested subsets of one program, singletons first (their tables
+  are what the multi-predicate requests are compared with)."""
   lines = []
   singles = {}
-  t0 = time.time()
-  subsets = case['subsets']
-  order = sorted(subsets, key=len)      # singletons first
-  for sub in order:
-    r = ExecuteRecorded(case['text'], sub, case.get('pre_sql', ()))
-    ident = '%s/%s' % (case['id'], '+'.join(sub))
-    if r['cfg'] is None:
-      lines.append({'id': ident, 'cfg': {'n': 0, 'req': [], 'iters': []},
-                    'ev': [], 'end': r['end'], 'res': [],
-                    '_': {'case': case['id'], 'subset': sub, 'stmts': [],
-                          'problems': [], 'origin': case['origin'],
-                          'text': case['text']}})
-      continue
-    if len(sub) == 1 and r['end'] == 'ok':
-      singles[sub[0]] = r['results'].get(sub[0])
-    res = []
-    if len(sub) > 1 and r['end'] == 'ok':
-      for p in sub:
-        if p in singles and singles[p] is not None:
-          res.append({'p': p, 'multi': r['results'][p], 'single': singles[p]})
-        else:
-          r['problems'].append('no single result for %s' % p)
-    lines.append({'id': ident, 'cfg': PublicCfg(r['cfg']), 'ev': r['ev'],
-                  'end': r['end'], 'res': res,
-                  '_': {'case': case['id'], 'subset': sub,
-                        'stmts': ['%s:%s' % s['key'] for s in r['stmts']],
-                        'problems': r['problems'], 'origin': case['origin'],
-                        'rename': r.get('rename', 0),
-                        'calls': r['calls'],
-                        'text': case['text'],
-                        'pre_sql': list(case.get('pre_sql', ())),
-                        'wall': round(time.time() - t0, 3)}})
+  for sub in sorted(case['subsets'], key=len):
+    line = RunSubset({'case': case, 'sub': sub, 'singles': singles})
+    if len(sub) == 1:
+      singles.update(line['_']['results'])
+    lines.append(line)
   return lines
+
+
+def RunTask(task):
+  """Dispatcher for one pool of heterogeneous tasks."""
+  kind = task['kind']
+  if kind == 'subset':
+    return RunSubset(task)
+  if kind == 'runmany':
+    return RunManyCase(task['case'])
+  if kind == 'stub':
+    return RunStubCase(task['case'])
+  raise ValueError(kind)
 
 
 def RunManyCase(case):
